@@ -31,7 +31,7 @@ func (C14) Explore(x *kernel.Explorer, seed uint64) {
 			"chunk": 0, "colseed": int64(r.Uint32()), "cells": int64(r.Intn(2)), "mysql": int64(r.Intn(3) / 2), "depeof": int64(r.Intn(2)), "wyield": int64(r.Intn(2))}}
 		n := 2 + r.Intn(6)
 		for j := 0; j < n; j++ {
-			plan.Ops = append(plan.Ops, kernel.Op{ID: j + 1, Kind: r.Pick("insert", "select", "select-x", "insert-x", "update"), A: []int64{int64(r.Intn(50))}})
+			plan.Ops = append(plan.Ops, kernel.Op{ID: j + 1, Kind: r.Pick("insert", "select", "select-x", "insert-x", "update", "wide", "wide-x"), A: []int64{int64(r.Intn(50))}})
 		}
 		nf := 1 + r.Intn(3)
 		for k := 0; k < nf; k++ {
@@ -46,6 +46,10 @@ func (C14) Explore(x *kernel.Explorer, seed uint64) {
 				f.Kind = "tiny-length"
 			} else if r.Chance(1, 6) {
 				f.Kind = "inject"
+			} else if r.Chance(1, 6) {
+				// a message cut to a drawn length (0..47 bytes) with a matching length field
+				f.Kind = "truncate-message"
+				f.Arg |= int64(r.Intn(48)) << 20
 			} else if r.Chance(1, 8) {
 				f.Kind = "ones-field"
 			} else if r.Chance(1, 8) {
@@ -76,10 +80,17 @@ func (C14) Run(t *testing.T, plan *kernel.Plan, keepLog bool) *kernel.Result {
 			return
 		}
 		pw.maxSteps = 12000
+		c14WideTables(pw)
 		var script []Stmt
 		rows := 0
 		for _, op := range plan.Ops {
 			switch op.Kind {
+			case "wide", "wide-x":
+				st := Stmt{SQL: fmt.Sprintf("SELECT * FROM w%d", []int{7, 8, 15, 16}[int(op.Arg(0, 0))%4])}
+				if op.Kind == "wide-x" {
+					st.Extended, st.Describe, st.ResultFormats = true, true, []int16{1}
+				}
+				script = append(script, st)
 			case "insert", "insert-x":
 				rows++
 				var vals []string
